@@ -34,7 +34,7 @@ type echoServer struct {
 	mu       sync.Mutex
 	held     map[string]chan struct{} // id -> release
 	push     map[string]bool          // id -> the server sends a message of its own before the response
-	drop     map[string]bool          // id -> the server closes the connection instead of answering (once)
+	drop     map[string]int           // id -> the server closes the connection instead of answering, this many times
 	conns    []*memnet.Conn           // client ends handed out by the dialer
 	received map[string]chan struct{} // id -> closed when the request reached the server
 }
@@ -50,15 +50,17 @@ func idOf(m *kmip.RequestMessage) string {
 }
 
 func newEcho() *echoServer {
-	e := &echoServer{held: map[string]chan struct{}{}, received: map[string]chan struct{}{}, push: map[string]bool{}, drop: map[string]bool{}}
+	e := &echoServer{held: map[string]chan struct{}{}, received: map[string]chan struct{}{}, push: map[string]bool{}, drop: map[string]int{}}
 	e.Server = script.NewServer(func(rx script.Received, conn *memnet.Conn) *kmip.ResponseMessage {
 		id := idOf(rx.Msg)
 		e.mu.Lock()
 		rel := e.held[id]
 		push := e.push[id]
 		delete(e.push, id)
-		drop := e.drop[id]
-		delete(e.drop, id)
+		drop := e.drop[id] > 0
+		if drop {
+			e.drop[id]--
+		}
 		if ch := e.received[id]; ch != nil {
 			close(ch)
 			delete(e.received, id)
@@ -565,9 +567,16 @@ func drops(c *core.Ctx, r *core.Rand, i int) {
 				id := fmt.Sprintf("d%d-g%d-%d", i, g, k)
 				if rr.P(1, 3) {
 					srv.mu.Lock()
-					srv.drop[id] = true
+					n := 1
+					if rr.P(1, 4) {
+						n = 2 + rr.Intn(5) // several losses in a row within one call, up to more than the client retries
+					}
+					srv.drop[id] = n
 					srv.mu.Unlock()
-					c.Count("connections_dropped_mid_call", 1)
+					c.Count("connections_dropped_mid_call", int64(n))
+					if n >= 4 {
+						c.Count("calls_losing_every_connection", 1)
+					}
 				}
 				if rr.P(1, 2) {
 					d := time.Duration(rr.Intn(3)) * time.Millisecond
@@ -596,7 +605,7 @@ func Spec() *core.Spec {
 			"while the server holds the response, 2 ms deadline}, always followed by further calls; stress: 2..32 goroutines sharing one client, 6 calls each with seeded plans (race detector on). " +
 			"a plan where the server writes a server-to-client request ahead of the response; a plan where the Write that delivered the request reports an error; a client and its clones (some cloned while the dialer fails) used concurrently with pauses between write and wait; the client against the library server with requests above its size limit mixed in; whole responses kept by their callers and re-read after all later calls; distinct = distinct call histories (ids, plans, outcomes in completion order)",
 		Assumptions: []string{"cancellation instants are placed by the verif hooks client.send.loaded and client.roundtrip.sent, which sit where the scheduler may preempt anyway"},
-		Required:    []string{"calls", "calls_returning_response", "calls_returning_error", "cancel.before-send", "cancel.at-send-loaded", "cancel.between-send-and-recv", "cancel.while-server-holds", "hook.client.roundtrip.sent", "stress_rounds", "server_pushes", "calls.server-push-before-response", "write_errors_after_flush", "held_responses", "oversized_requests", "real_server_calls", "clone_rounds", "clones_with_failing_dial", "clone_rounds_with_slow_writes", "directed_with_failing_close", "connections_dropped_mid_call", "drop_rounds"},
+		Required:    []string{"calls", "calls_returning_response", "calls_returning_error", "cancel.before-send", "cancel.at-send-loaded", "cancel.between-send-and-recv", "cancel.while-server-holds", "hook.client.roundtrip.sent", "stress_rounds", "server_pushes", "calls.server-push-before-response", "write_errors_after_flush", "held_responses", "oversized_requests", "real_server_calls", "clone_rounds", "clones_with_failing_dial", "clone_rounds_with_slow_writes", "directed_with_failing_close", "connections_dropped_mid_call", "calls_losing_every_connection", "look_faults_fired", "drop_rounds"},
 		// the pairing of requests and responses of concurrent calls rests on the client serialising its calls: two calls of
 		// one client racing with each other inside the round trip are not serialised
 		RaceVerdict: func(r core.RaceReport) (string, bool) {
@@ -629,6 +638,12 @@ func Spec() *core.Spec {
 				}
 				return 40
 			}, Run: clones, Timeout: 60 * time.Second},
+			{Name: "looks", N: func(tier string) int {
+				if tier == core.Thorough {
+					return 2400
+				}
+				return 48
+			}, Run: looks, Timeout: 60 * time.Second},
 			{Name: "drops", N: func(tier string) int {
 				if tier == core.Thorough {
 					return 4000
@@ -655,4 +670,99 @@ func Spec() *core.Spec {
 			}, Run: stress, Timeout: 60 * time.Second},
 		},
 	}
+}
+
+// lookCtx acts at its k-th consultation (see C11): it places an event between two steps of one call without hooks.
+type lookCtx struct {
+	context.Context
+	n  atomic.Int32
+	at int32
+	fn func()
+}
+
+func (l *lookCtx) Done() <-chan struct{} {
+	if l.n.Add(1) == l.at {
+		l.fn()
+	}
+	return l.Context.Done()
+}
+
+func (l *lookCtx) Err() error {
+	if l.n.Add(1) == l.at {
+		l.fn()
+	}
+	return l.Context.Err()
+}
+
+// looks: during one call of a client that other goroutines use too, the server end of the connection goes away (and
+// the client notices) exactly at the k-th look the library takes at the caller's context. Every call returns an
+// error or its own response.
+func looks(c *core.Ctx, r *core.Rand, i int) {
+	ctl := hooks.Install()
+	defer ctl.Uninstall()
+	srv := newEcho()
+	defer srv.Close()
+	cl := dial(srv)
+	defer cl.Close()
+	var hist []string
+	var mu sync.Mutex
+	at := int32(1 + i%12)
+	others := 1 + r.Intn(3)
+	var wg sync.WaitGroup
+	stop := make(chan struct{})
+	for g := 0; g < others; g++ {
+		wg.Add(1)
+		go func(g int) {
+			defer wg.Done()
+			for k := 0; ; k++ {
+				select {
+				case <-stop:
+					return
+				default:
+				}
+				verdict(c, call(c, cl, srv, ctl, fmt.Sprintf("l%d-o%d-%d", i, g, k), planNone), &hist, &mu)
+			}
+		}(g)
+	}
+	for k := 0; k < 6; k++ {
+		ctx, cancel := context.WithCancel(context.Background())
+		lc := &lookCtx{Context: ctx, at: at}
+		lc.fn = func() {
+			srv.mu.Lock()
+			conns := append([]*memnet.Conn{}, srv.conns...)
+			srv.mu.Unlock()
+			for _, cc := range conns {
+				if !cc.Closed() && cc.Peer() != nil {
+					cc.Peer().Close() // the server end goes away
+				}
+			}
+			for t := 0; t < 100; t++ { // give the read loop the time to notice
+				all := true
+				for _, cc := range conns {
+					all = all && cc.Closed()
+				}
+				if all {
+					break
+				}
+				time.Sleep(50 * time.Microsecond)
+			}
+			c.Count("look_faults_fired", 1)
+		}
+		id := fmt.Sprintf("l%d-x%d", i, k)
+		res := result{id: id, plan: planNone}
+		var resp *payloads.ActivateResponsePayload
+		if p, pv, st := core.Guard(func() { resp, res.err = cl.Activate(id).ExecContext(lc) }); p {
+			c.Violation(core.PanicSig(pv, st), fmt.Sprintf("client call panicked when its connection went away at the %d-th look at the caller's context: %v", at, pv), map[string]any{"stack": st})
+			res.err = fmt.Errorf("panic")
+		}
+		if res.err == nil && resp != nil {
+			res.got = resp.UniqueIdentifier
+		}
+		cancel()
+		verdict(c, res, &hist, &mu)
+	}
+	close(stop)
+	wg.Wait()
+	c.Count("look_rounds", 1)
+	c.Distinct(core.Hash64("looks", fmt.Sprint(at, others)))
 }
